@@ -93,6 +93,7 @@ fn gen_case(mode: Mode, rng: &mut Rng) -> Case {
                     17 if !calm => Op::FailSend { conn: rng.range(0, 12) as u8, n: rng.range(0, 2) as u8 },
                     20..=21 => Op::Close { conn: rng.range(0, 12) as u8 },
                     22..=23 => Op::Register { ident: rng.range(0, n_idents as u64 - 1) as u8, v1: rng.chance(1, 4), cap: if calm { 32 } else { 4 } },
+                    18 => if rng.chance(1, 4) { Op::Shutdown } else { gen_pause(rng) },
                     _ => gen_pause(rng),
                 };
                 ops.push(op);
@@ -283,6 +284,25 @@ async fn apply(w: &mut World, ctx: &Ctx, mode: Mode, calm: bool, op: &Op) {
                 w.conns[c].ever_stalled = true;
                 ctx.count("fault.server_write_error_armed");
                 ctx.ev(format!("fail-send conn={c} in={n}"));
+            }
+        }
+        Op::Shutdown => {
+            let seq = w.seq.next();
+            let alive: Vec<usize> = (0..w.conns.len()).filter(|c| w.alive(*c)).collect();
+            ctx.ev(format!("#{seq} clients.shutdown() started; live conns {alive:?}"));
+            ctx.count("fault.registry_shutdown");
+            for c in alive {
+                w.conns[c].end_seq = Some(seq);
+                w.conns[c].harness_ended = true;
+            }
+            // the registry drops every entry at once and sends no notices
+            w.stack.clear();
+            // run the synchronous part of shutdown() now (entries removed, actors cancelled), the
+            // rest (joining the actors) in the background, racing with whatever the script does next
+            let cl = w.clients.clone();
+            let mut fut = Box::pin(async move { cl.shutdown().await });
+            if futures_util::poll!(&mut fut).is_pending() {
+                tokio::task::spawn_local(fut);
             }
         }
         Op::Pause { kind, ms } => match kind {
@@ -559,6 +579,18 @@ fn exec(mode: Mode, case: &Case, ctx: &Ctx) {
             }
             Mode::Registry => {
                 w.settle(&ctx, true).await;
+                // An endpoint's entry (and with it a live connection's actor) must not disappear
+                // while the connection is open: a connection that never stalled, was never armed
+                // with a write error and was not ended by the script must still be served.
+                for (i, c) in w.conns.iter().enumerate() {
+                    if c.end_seq.is_some() && !c.harness_ended && !c.ever_stalled {
+                        ctx.violate(
+                            "open-connection-dropped-by-registry",
+                            format!("conn {i} (ident {}) was ended by the relay at #{:?} although the script never closed, stalled or faulted it", c.ident, c.end_seq),
+                        );
+                        return;
+                    }
+                }
                 oracle_registry_safety(&w, &ctx);
                 if ctx.violated() {
                     return;
